@@ -188,6 +188,59 @@ def build(case):
     return test, target, ts, xs
 
 
+def factory_case(depth, first):
+    """a factory target whose make() deploys a child; child.boom() sets its flag; the invariant reads factory.last().flag()"""
+    child = e2e.Spec("Child", fns=[("boom()", [("PUSH", 1), "PUSH0", "SSTORE"]), ("flag()", ["PUSH0", "SLOAD"] + ret_word())])
+    make = e2e.create_from_data("child") + [("PUSH", 5), "SSTORE"]
+    bump = ["PUSH0", "SLOAD", ("PUSH", 1), "ADD", "PUSH0", "SSTORE"]
+    fns = [("bump()", bump), ("make()", make)] if first == "bump" else [("make()", make), ("bump()", bump)]
+    factory = e2e.Spec("Factory", fns=fns + [("last()", [("PUSH", 5), "SLOAD"] + ret_word())], data={"child": child.creation()})
+    inv = e2e.ext_call([("PUSH", 0), "SLOAD"], "last()", static=True) + ["POP", ("PUSH", 0x80), "MLOAD", "DUP1", ("PUSHL", "has"), "JUMPI", "STOP", ("LABEL", "has")]
+    inv += [("PUSH", int.from_bytes(e2e.selector("flag()"), "big") << 224, 32), ("PUSH", 0x80), "MSTORE", ("PUSH", 32), ("PUSH", 0x80), ("PUSH", 4), ("PUSH", 0x80),
+            "DUP5", "GAS", "STATICCALL", "POP", "POP", ("PUSH", 0x80), "MLOAD", ("PUSHL", "bad"), "JUMPI", "STOP", ("LABEL", "bad")] + e2e.panic(1)
+    test = e2e.Spec("InvF", fns=[("setUp()", e2e.create_from_data("f", store_slot=0)), ("invariant_i()", inv)], data={"f": factory.creation()})
+    return test, factory, child
+
+
+def run_factory(arg):
+    depth, first, tier = arg
+    rec = common.Recorder(tier=tier)
+    ident = f"factory-{first}-first-d{depth}"
+    try:
+        test, factory, child = factory_case(depth, first)
+        o = e2e.run(test, others=(factory, child), invariant_depth=depth, solver_timeout_assertion=60000)
+        r = o.result("invariant_i")
+        if r is None:
+            rec.inconc("dynamic-targets", ident, f"no result: {o.warnings[:2]} {o.exception!r}")
+            return rec.events, {"cases": 1}
+        oracle_addrs = [0xAAAA0002 + i for i in range(8)]
+        state = oracle.post_setup(test, address_oracle=oracle_addrs)
+        env = dict(state[2])
+        truth = invoracle.ground_truth((state[0], state[1], env), [], "invariant_i()", depth, cap=20 if tier == "quick" else 90,
+                                       specs=[factory, child], address_oracle=oracle_addrs[1:])
+        verdict = {0: "PASS", 1: "FAIL"}.get(r.exitcode, f"other({r.exitcode})")
+        if truth.status == "unknown":
+            rec.inconc("dynamic-targets", ident, f"ground truth undecided: {truth.detail}")
+        elif truth.status == "fails" and verdict == "PASS":
+            rec.violation("dynamic-targets", f"dynamic-targets/{first}-first/d{depth}", f"{ident}: the sequence {truth.sequence} (a contract deployed "
+                          "by a target call is itself a target afterwards) breaks the invariant but halmos reports PASS",
+                          {"sequence": truth.sequence, "line": o.line("invariant_i")})
+        elif truth.status == "safe" and verdict == "FAIL" and any(pm.is_valid for pm in (r.models or [])):
+            rec.violation("dynamic-targets", f"dynamic-targets-spurious/{first}-first/d{depth}", f"{ident}: FAIL with a valid counterexample on a safe "
+                          "invariant", {"line": o.line("invariant_i")})
+        elif verdict in ("PASS", "FAIL"):
+            rec.ok("dynamic-targets", ident)
+        else:
+            rec.inconc("dynamic-targets", ident, f"verdict {verdict} ({o.warnings[:1]})")
+    except oracle.OracleError as e:
+        rec.inconc("dynamic-targets", ident, f"oracle: {e}")
+    except Exception as e:
+        import traceback
+
+        rec.harness_error(f"{ident}: {type(e).__name__}: {e} | {traceback.format_exc().strip().splitlines()[-2][:160]}")
+    return rec.events, {"cases": 1}
+
+
 def run_case(arg):
     case, tier = arg
     rec = common.Recorder(tier=tier)
@@ -285,6 +338,12 @@ def main(run: common.Run):
         common.replay_events(run, res[0])
         for k, v in res[1].items():
             total[k] = total.get(k, 0) + v
+    if not only or "hand" in only:
+        for res in common.parallel_map(run_factory, [(d, f, tier) for d in (1, 2) for f in ("bump", "make")], 4):
+            if res and res[0] == "error":
+                run.harness_error("worker crashed: " + res[1].strip().splitlines()[-1])
+                continue
+            common.replay_events(run, res[0])
     run.extra.update(total)
     run.extra["rule"] = "one obligation per (target set, invariant, depth, sender filter); ground truth = sat/unsat over all call sequences"
     if not only and (not total.get("truth_fails") or not total.get("truth_safe")):
